@@ -575,6 +575,8 @@ class CallMixin:
         src = args[0]
         if src.ty.kind == "Set":
             return src
+        if src.ty.kind == "Iter" and src.py[0] == "filter" and self.mode != "UNROLL":
+            return self.set_of_filter(src, st, node)
         lst = self.realize(src, st, node)
         if lst.ty.kind == "EmptyList":
             return Val(TSet(TRef(None)), z3.K(self.S.Ref, False), py="emptyset")
@@ -591,6 +593,31 @@ class CallMixin:
         x = self.qvar("x", es)
         idx = z3.Function("setidx!%d" % next(self.counter), es, z3.IntSort())
         self.assume(z3.ForAll([x], z3.Implies(z3.Select(s, x), z3.And(idx(x) >= 0, idx(x) < n, self.list_get(lst, idx(x)) == x))), st)
+        return Val(TSet(et), s)
+
+    def set_of_filter(self, v, st, node=None):
+        """set(filter(pred, L)) = {x in L | pred(x)} stated directly (no order-embedding needed for a set)"""
+        _, fn, srcv = v.py
+        lst = self.realize(srcv, st, node)
+        if lst.ty.kind == "EmptyList":
+            return Val(TSet(TRef(None)), z3.K(self.S.Ref, False), py="emptyset")
+        et = lst.ty.elem
+        es = self.S.sort(et)
+        n = self.list_len(lst)
+        s = self.fresh(z3.ArraySort(es, z3.BoolSort()), "fset")
+        k = self.qvar()
+        self.binders.append((k, z3.And(k >= 0, k < n)))
+        try:
+            pk = self.truth(self.apply_fn(fn, [Val(et, self.list_get(lst, k))], st, node), node)
+        finally:
+            self.binders.pop()
+        self.assume(z3.ForAll([k], z3.Implies(z3.And(k >= 0, k < n), z3.Select(s, self.list_get(lst, k)) == pk),
+                              patterns=[self.list_get(lst, k)]), st)
+        x = self.qvar("x", es)
+        idx = z3.Function("fsetidx!%d" % next(self.counter), es, z3.IntSort())
+        self.assume(z3.ForAll([x], z3.Implies(z3.Select(s, x), z3.And(idx(x) >= 0, idx(x) < n, self.list_get(lst, idx(x)) == x)),
+                              patterns=[z3.Select(s, x)]), st)
+        self.trusted.add("set(filter(pred, L)) = the set of elements of L satisfying pred")
         return Val(TSet(et), s)
 
     def bi_filter(self, args, kwargs, st, node):
